@@ -4,6 +4,7 @@ import OpusProofs.RangeCoderBudget
 import OpusProofs.RangeCoderPatchRun
 import OpusProofs.RangeCoderLockstep3
 import OpusProofs.RangeCoderFlags
+import OpusProofs.RangeCoderCodes
 /-
   Property C08 — "Range coder: the decoder inverts the encoder symbol for symbol, within budget".
 
@@ -253,6 +254,61 @@ example : LegalRunP 3 (encOp (encInit (List.replicate 8 0) 8) (.icdf 0 (flagTabl
     bitsOps (lastPatch 0 exampleSilk) 3 = [.bitLogp 1 1, .bitLogp 0 1, .bitLogp 1 1] ∧
     (decRun (decInit ((encodeAll (List.replicate 8 0) 8 (.icdf 0 (flagTable 3) 8 :: exampleSilk)).buf.take 8) 8)
       (bitsOps 5 3 ++ exampleSilk)).1 = [1, 0, 1, 2, 12, 1, 3, 0] := by decide +kernel
+
+/-! ## Composition with C17 — the Laplace code and the PVQ code through the real range coder
+
+  `Code` (OpusModel/RangeCoderCodes.lean) is one coding step of the CELT layer: a plain range-coder call,
+  `ec_laplace_encode(&value, fs, decay)` (= `ec_encode_bin(fl, fl+fs, 15)` with C17's interval), or
+  `encode_pulses(y, N, K)` (= `ec_enc_uint(icwrs(y), V(N,K))`).  `decCode` is the decoder side
+  (`ec_laplace_decode`, `decode_pulses`), whose calls depend on what the range decoder returns.
+  `Code.Ok`: the Laplace pair satisfies C17's `LaplaceOk` (every pair of `e_prob_model` does), the
+  pulse vector has `N ≥ 2`, `K = Σ|y_j|` pulses and `(N, K)` is reachable from the pulse cache (C17
+  `Reach`).  `LegalCodes`: every step is `Ok` and every plain call is `LegalAt` its state. -/
+
+/-- "decoder inverts encoder" for the two codes the CELT layer is built from: for every list of coding
+    steps (Laplace symbols with any usable parameter pair, PVQ codewords of any reachable `(N, K)`, any
+    other range-coder calls, in any interleaving), written into a buffer of any size: no `celt_assert`
+    of laplace.c / cwrs.c fires on the encoder side, the steps are a legal run of range-coder calls,
+    and if `ec_enc_done` reports no error then the decoder side does not assert either and returns the
+    encoder's written-back (clamped) Laplace values, exactly the encoded pulse vectors and the encoded
+    symbols; its error flag stays clear and it ends with the encoder's `rng` and `nbits_total`. -/
+theorem laplace_pvq_roundtrip (buf : List Nat) (size : Nat) (cs : List Code) (hs : size ≤ buf.length)
+    (hb : BytesOk buf) (hl : LegalCodes (encInit buf size) cs) :
+    ∃ ops, codesOps cs = .ok ops ∧ encodeCodes buf size cs = .ok (encodeAll buf size ops) ∧
+      LegalRun (encInit buf size) ops ∧
+      ((encodeAll buf size ops).nbitsTotal < 4294967296 → (encodeAll buf size ops).error = 0 →
+        ∃ vals d, decCodes (decInit ((encodeAll buf size ops).buf.take (encodeAll buf size ops).storage)
+            (encodeAll buf size ops).storage) cs = .ok (vals, d) ∧
+          MatchAllC cs vals ∧ d.error = 0 ∧ d.rng = (encRun (encInit buf size) ops).rng ∧
+          d.nbitsTotal = (encRun (encInit buf size) ops).nbitsTotal) := by
+  obtain ⟨ops, h1, h2, h3, h4⟩ := codes_roundtrip_all buf size cs hs hb hl
+  refine ⟨ops, h1, h2, h3, fun hn herr => ?_⟩
+  obtain ⟨vals, d, g1, g2, g3⟩ := h4 hn herr
+  exact ⟨vals, d, g1, g2, g3.err, g3.rc.rng_eq, g3.rc.nbits_eq⟩
+
+/-- A coarse-energy value, three raw bits, a 4-dimensional 2-pulse vector, and a Laplace value far
+    outside the range (the encoder clamps 20000 to 30). -/
+def exampleCodes : List Code :=
+  [.laplace (-3) 9216 8128, .op (.bits 5 3), .pulses [0, 1, -1, 0] 2, .laplace 20000 9216 8128]
+
+example : LegalCodes (encInit (List.replicate 10 0) 10) exampleCodes := by
+  have e1 : (Code.laplace (-3) 9216 8128).encOps = .ok [.encodeBin 26948 28407 15] := by decide +kernel
+  have e3 : (Code.pulses [0, 1, -1, 0] 2).encOps = .ok [.uint 11 32] := by decide +kernel
+  have hr : OpusProofs.CwrsCache.Reach 4 2 (Opus.Gen.CeltTables.cacheBits.getD 125 0) :=
+    ⟨3, 0, 123, 2, by decide, by decide, by decide, by decide, by decide, by decide, by decide, rfl⟩
+  refine ⟨by show OpusProofs.Laplace.LaplaceOk 9216 8128 = true; decide +kernel, trivial, fun ops h => ?_⟩
+  rw [e1] at h; injection h with h; subst h
+  refine ⟨trivial, by decide +kernel, fun ops h => ?_⟩
+  simp only [Code.encOps] at h; injection h with h; subst h
+  refine ⟨⟨by decide, by decide, _, hr⟩, trivial, fun ops h => ?_⟩
+  rw [e3] at h; injection h with h; subst h
+  exact ⟨by show OpusProofs.Laplace.LaplaceOk 9216 8128 = true; decide +kernel, trivial, fun _ _ => trivial⟩
+
+example : (do
+      let e ← encodeCodes (List.replicate 10 0) 10 exampleCodes
+      let r ← decCodes (decInit (e.buf.take e.storage) e.storage) exampleCodes
+      pure (e.error, r.1) : Res (Int × List CodeVal)) =
+    .ok (0, [.lap (-3), .sym 5, .vec [0, 1, -1, 0], .lap 30]) := by decide +kernel
 
 /-! ## Stage D — budget and memory -/
 
